@@ -1,6 +1,8 @@
 package main
 
 import (
+	"bytes"
+	"errors"
 	"crypto/hmac"
 	"crypto/md5"
 	"crypto/sha1"
@@ -414,6 +416,43 @@ func streamChecks(r *common.Run) {
 		return ev, nt
 	})
 	r.SampleL("digest streams", map[string]any{"function": "Sha1Stream", "length": 65, "pattern": 0, "reads": "[{1 false} {64 true}]"})
+	// histories: a stream that fails after delivering some bytes must not influence later calls
+	// ("for every input" includes inputs hashed after an earlier call went wrong)
+	section(r, "digest streams after a failed stream", "6 XStream helpers x (bytes delivered before a reader error: 0..70) x 1..3 failing calls, then 2 healthy calls of lengths {0, 1, 65}", func() (int64, int64) {
+		var ev, nt int64
+		for _, d := range streams {
+			for pre := 0; pre <= 70; pre++ {
+				for fails := 1; fails <= 3; fails++ {
+					for k := 0; k < fails; k++ {
+						fr := &failingReader{data: pattern(1, pre)}
+						common.Catch(func() { d.stream(fr) })
+					}
+					for _, l := range []int{0, 1, 65} {
+						for rep := 0; rep < 2; rep++ {
+							data := pattern(0, l)
+							want := oracleSum(d.newH, data)
+							var got string
+							var err error
+							ev++
+							nt++
+							_, st, p := common.Catch(func() {
+								var b []byte
+								b, err = d.stream(bytes.NewReader(data))
+								got = string(b)
+							})
+							c := map[string]any{"function": d.name + "Stream", "bytes_before_reader_error": pre, "failed_calls_before": fails, "length": l}
+							if p {
+								r.Violation(d.name+"Stream|panic|after-failed-stream", "panicked: "+common.PanicSite(st), c, "")
+							} else if err != nil || got != want {
+								r.Violation(d.name+"Stream|wrong-digest|after-failed-stream", fmt.Sprintf("hashz.%sStream = %q, %v for a healthy %d-byte reader, want %q: %d earlier call(s) whose reader failed after %d bytes left state behind", d.name, got, err, l, want, fails, pre), c, "")
+							}
+						}
+					}
+				}
+			}
+		}
+		return ev, nt
+	})
 	if compLen > 0 {
 		section(r, "digest streams (compositions)", fmt.Sprintf("6 XStream helpers x data lengths 1..%d x pattern 0 x every split into non-empty reads x EOF separate/together, scripts with > %d deviations (the rest is in the previous family)", compLen, maxDev), func() (int64, int64) {
 			var ev, nt int64
@@ -443,4 +482,22 @@ func streamChecks(r *common.Run) {
 			return ev, nt
 		})
 	}
+}
+
+
+// failingReader delivers its data in one read and then reports a non-EOF error.
+type failingReader struct {
+	data []byte
+	done bool
+}
+
+func (f *failingReader) Read(p []byte) (int, error) {
+	if !f.done {
+		f.done = true
+		n := copy(p, f.data)
+		if n > 0 {
+			return n, nil
+		}
+	}
+	return 0, errors.New("scripted reader failure")
 }
